@@ -247,9 +247,16 @@ def canonical(blob_or_root):
     return etree.tostring(root, method="c14n")
 
 
-def same_payload(a, b):
+def same_payload(a, b, strict=False):
+    """Byte-identical, or XML-equivalent.  strict: plain C14N, whitespace-only text nodes kept - for XML whose vocabulary is not
+    one of the Office schemas (application/xml, custom XML): nobody can say its blanks are insignificant (mixed content)."""
     if a == b:
         return True
+    if strict:
+        try:
+            return etree.tostring(etree.fromstring(a, PLAIN), method="c14n") == etree.tostring(etree.fromstring(b, PLAIN), method="c14n")
+        except etree.XMLSyntaxError:
+            return False
     ca = canonical(a)
     if ca is None:
         return False
